@@ -31,6 +31,9 @@ def configs(ctx):
         out.append(dc(op="sweep", n=2, proposal=prop, data_seed=45, outlier_prob=0.2, alpha=0.6))
         out.append(dc(op="sweep", n=2, proposal=prop, data_seed=46, subtree_prob=0.5))
     out.append(dc(op="prg", n=5, style="flat", symmetric=1, data_seed=52, alpha=1.4))
+    # the sweep with repeated passes (num_samples_data_point / num_samples_prune_regraph = 2), as the CLI allows
+    out.append(dc(op="sweep", n=2, proposal="semi-adapted", data_seed=56, n_dp=2, n_prg=2, alpha=1.5))
+    out.append(dc(op="sweep", n=2, proposal="bootstrap", data_seed=57, n_dp=1, n_prg=3, outlier_prob=0.2))
     mandatory = len(out)
     out.append(dc(op="subtree", n=4, style="flat", symmetric=1, proposal="semi-adapted", wiring="run", data_seed=53))
     out.append(dc(op="sweep", n=3, proposal="semi-adapted", data_seed=47))
